@@ -294,3 +294,36 @@ func Verif_C17_close_with_notices_pending() {
 	verifapi.Assert("all-background-activity-stopped", verifapi.Blocked())
 	verifapi.Assert("no-lock-left-held", verifapi.HeldLocks() == 0)
 }
+
+// Verif_C17_failed_dial_leaves_nothing_behind: a stream dial that fails (handshake refused, stream
+// refused, or the dial context cancelled by the caller) - nobody ever gets a Conn to close. Afterwards
+// the node runs exactly the goroutines it ran before the dial: no subscription, monitor or socket
+// goroutine of the failed dial is left behind, and the ephemeral service name is free again.
+func Verif_C17_failed_dial_leaves_nothing_behind() {
+	n := verifNetceptor("A")
+	s := n.s
+	n.verifConn("B", 1)
+	s.routingTable["B"] = "B"
+	verifapi.Quiesce()
+	how := verifapi.Choose(2) // 0 handshake fails, 1 stream open fails
+	qctx, qcancel := context.WithCancel(context.Background())
+	qc := &verifQConn{ctx: qctx, cancel: qcancel, stream: &verifQStream{closed: new(int), wrote: &[]byte{}}, openErr: how == 1, remote: Addr{node: "B", service: "svc"}}
+	verifapi.Redirect("(*github.com/quic-go/quic-go.Transport).Dial", func(t *quic.Transport, ctx context.Context, addr net.Addr, tlsConf *tls.Config, conf *quic.Config) (quic.Connection, error) {
+		verifapi.Quiesce() // a handshake takes time: the dial's monitor goroutines are up and subscribed by now
+		if how == 0 {
+			return nil, fmt.Errorf("handshake failed")
+		}
+		return qc, nil
+	})
+	verifapi.FixRandom("ephem007")
+	before := verifapi.LiveGoroutines()
+	names := len(s.listenerRegistry)
+	conn, err := s.DialContext(context.Background(), "B", "svc", nil)
+	verifapi.Quiesce()
+	verifapi.Cover("dial-failed")
+	verifapi.Assert("failed-dial-reports-error", err != nil && conn == nil)
+	verifapi.Assert("failed-dial-releases-its-socket", len(s.listenerRegistry) == names)
+	verifapi.Assert("no-goroutine-left-behind", verifapi.LiveGoroutines() == before)
+	s.cancelFunc()
+	verifapi.Quiesce()
+}
